@@ -148,6 +148,19 @@ func (p *Prog) parseFieldLens() map[string]int {
 	return out
 }
 
+// parseFieldWidth: t is `<Parse call>#0.<Field>` for a fixed-width field of one of the Parse functions.
+func parseFieldWidth(t string, plens map[string]int) (int, bool) {
+	for key, w := range plens {
+		parts := strings.SplitN(key, "|", 2)
+		if strings.HasPrefix(t, parts[0]) && strings.HasSuffix(t, "#0."+parts[1]) {
+			if idx := strings.LastIndex(t, "#0."); idx >= 0 && t[idx+3:] == parts[1] {
+				return w, true
+			}
+		}
+	}
+	return 0, false
+}
+
 // lenOf derives bounds on len(v) valid when `at` executes.
 func (c *FC) lenOf(v ssa.Value, at ssa.Instruction, plens map[string]int) lenFact {
 	f := lenFact{0, -1, ""}
@@ -278,6 +291,29 @@ func (c *FC) lenOf(v ssa.Value, at ssa.Instruction, plens map[string]int) lenFac
 						}
 					}
 				}
+			}
+		}
+	}
+	// the same through a new helper's parameters: the term with every call site's arguments
+	if c.p.newHelper(c.fn) && c.x.Of(v, at).hasParam() && !lenOfActive[c.fn] {
+		if callers := c.p.callersOf(c.fn); len(callers) > 0 && len(c.p.funcValueUses(c.fn)) == 0 {
+			all, width := true, -1
+			for caller, calls := range callers {
+				cx := c.p.tx(caller)
+				for _, call := range calls {
+					var env []*Term
+					for _, a := range call.Call.Args {
+						env = append(env, cx.Of(a, call))
+					}
+					w, ok := parseFieldWidth(substTerm(c.x.Of(v, at), env).String(), plens)
+					if !ok || (width >= 0 && w != width) {
+						all = false
+					}
+					width = w
+				}
+			}
+			if all && width >= 0 {
+				return lenFact{width, width, "fixed-width Parse field at every call site of " + funcName(c.fn)}
 			}
 		}
 	}
